@@ -520,6 +520,10 @@ func (p *parser) forStatement() ast.Statement {
 			p.setScope(bodyTable)
 			stmt := p.checkedDeclaration()
 			p.exitScope()
+			if stmt == nil { // alias declarations and failed function definitions are no statements
+				p.err(ddperror.SYN_UNEXPECTED_TOKEN, p.previous().Range, "Nach 'Für ...,' wurde eine Anweisung erwartet")
+				stmt = &ast.BadStmt{Tok: *p.previous(), Err: p.lastError}
+			}
 			// wrap the single statement in a block for variable-scoping of the counter variable in the resolver and typechecker
 			Body = &ast.BlockStmt{
 				Range: token.Range{
@@ -598,6 +602,10 @@ func (p *parser) forStatement() ast.Statement {
 			p.setScope(bodyTable)
 			stmt := p.checkedDeclaration()
 			p.exitScope()
+			if stmt == nil { // alias declarations and failed function definitions are no statements
+				p.err(ddperror.SYN_UNEXPECTED_TOKEN, p.previous().Range, "Nach 'Für ...,' wurde eine Anweisung erwartet")
+				stmt = &ast.BadStmt{Tok: *p.previous(), Err: p.lastError}
+			}
 			// wrap the single statement in a block for variable-scoping of the counter variable in the resolver and typechecker
 			Body = &ast.BlockStmt{
 				Range: token.Range{
